@@ -19,7 +19,7 @@ import slices
 import vlib
 
 PROP = "C01"
-QUICK = ["pair_v311_auto", "pair_v311_manual", "pair_v311_chunks", "pair_v50_auto", "pair_v50_manual", "pair_v50_ka"]
+QUICK = ["pair_v311_auto", "pair_v311_manual", "pair_v311_chunks", "pair_v50_auto", "pair_v50_manual", "pair_v50_ka", "pair_v50_rm3"]
 THOROUGH = QUICK + ["pair_v50_alias"]
 EP_PROPS = ["C05", "C06", "C07", "C08", "C12", "C13", "C14", "C15", "C19"]
 
@@ -40,7 +40,7 @@ def judge(trie, wd, workers):
     cfg = os.path.join(wd, "Trace_Pair.cfg")
     with open(cfg, "w") as f:
         f.write("SPECIFICATION Spec\nPOSTCONDITION AllVisited\nCHECK_DEADLOCK FALSE\nCONSTANTS\n EndpointProps = {%s}\n" % ", ".join('"%s"' % x for x in EP_PROPS))
-    res = vlib.tlc("Trace_Pair", cfg, wd, workers=workers, xmx="12g", timeout=2400, env={"TRIE": trie}, xss="1g", deque=True)
+    res = vlib.tlc("Trace_Pair", cfg, wd, workers=workers, xmx="6g", timeout=2400, env={"TRIE": trie}, xss="1g", deque=True)
     txt = open(res["out"], errors="replace").read()
     if not res["completed"] or '<<"UNVISITED"' in txt:
         import sys
@@ -94,52 +94,89 @@ def main(tier, replay=None):
 
     thorough = tier == "thorough"
     names = THOROUGH if thorough else QUICK
-    limit = 120000 if thorough else 9000
+    limit = 120000 if thorough else 42000
     slices.write_all(vlib.SPEC)
     rng = random.Random(vlib.seed())
     states = transitions = 0
     per_slice, edge_files = {}, []
+    res = vlib.tlc_many("MC_Pair", ["MC_%s.cfg" % n for n in names], wd, parallel=2 if thorough else 4,
+                        workers=8 if thorough else 4, xmx="24g" if thorough else "8g", timeout=3000 if thorough else 600)
     for name in names:
-        mc = vlib.tlc("MC_Pair", "MC_%s.cfg" % name, wd, workers=16 if thorough else 8, xmx="24g" if thorough else "8g", timeout=3000 if thorough else 600)
+        mc = res["MC_%s.cfg" % name]
         if not mc["completed"] or mc["errors"]:
             txt = open(mc["out"], errors="replace").read()
             sv = [l[:600] for l in txt.splitlines() if l.startswith('<<"SPECVIOL"')][:2]
             raise vlib.ToolError("pair slice %s: the specification violates its own properties: %s %s" % (name, mc["errors"][:2], sv))
         ef = os.path.join(wd, "edges_%s.ndjson" % name)
-        total, kept = vlib.edges_to_file(mc["out"], ef, limit=max(400, limit // len(names)), rng_seed=rng.randrange(1 << 30))
+        total, kept = vlib.edges_to_file(mc["out"], ef, limit=max(400, limit // len(names)), rng_seed=rng.randrange(1 << 30), maximal=True)
+        covered = vlib.edges_to_file.covered
         os.remove(mc["out"])
         states += mc["distinct"]
         transitions += total
-        per_slice[name] = {"states": mc["distinct"], "transitions": total, "replayed": kept}
+        per_slice[name] = {"states": mc["distinct"], "transitions": total, "replayed": covered, "schedules": kept}
         edge_files.append(ef)
-    args = ["run"]
-    for ef in edge_files:
-        args += ["--pair-edges", ef]
-    args += ["--drive-pair", "600" if thorough else "60", "--seed", str(vlib.seed()), "--steps", "40" if thorough else "25", "--out", trie]
-    hs = vlib.harness(binary, args, timeout=3000)
-    viols, tres = judge(trie, wd, 16 if thorough else 8)
-    nodes = vlib.load_trie(trie)
-    code, nv, nk = vlib.verdict(PROP, groups_of(nodes, viols), make_replay_fn(nodes))
+    # one harness process + one Trace_Pair run per slice (and one for the random workloads), side by side: every TLC
+    # worker deserialises the whole trie it walks, so several small tries are much cheaper than one big one
+    drive_n = "600" if thorough else "60"
+    parts = [(os.path.basename(ef)[6:-7], ["--pair-edges", ef]) for ef in edge_files]
+    parts.append(("random", ["--drive-pair", drive_n, "--seed", str(vlib.seed()), "--steps", "40" if thorough else "25"]))
+
+    def do_part(item):
+        pname, pargs = item
+        pwd = os.path.join(wd, "part_" + pname)
+        os.makedirs(pwd, exist_ok=True)
+        ptrie = os.path.join(pwd, "trie.ndjson")
+        phs = vlib.harness(binary, ["run"] + pargs + ["--out", ptrie], timeout=3000)
+        pviols, _ = judge(ptrie, pwd, 4 if thorough else 2)
+        pnodes = vlib.load_trie(ptrie)
+        os.remove(ptrie)
+        return pname, phs, pviols, pnodes
+
+    from concurrent.futures import ThreadPoolExecutor
+    with ThreadPoolExecutor(max_workers=4 if thorough else 8) as ex:
+        results = list(ex.map(do_part, parts))
+    groups, viols, hs = {}, [], {"calls": 0, "panics": 0, "ops": {}}
+    part_nodes = {}
+    quiet_n = lossy_n = leaves_n = trie_n = 0
+    samples = []
+    for pname, phs, pviols, pnodes in results:
+        part_nodes[pname] = pnodes
+        for sig, g in groups_of(pnodes, pviols).items():
+            g["example"] = (pname, g["example"])
+            if sig in groups:
+                groups[sig]["count"] += g["count"]
+            else:
+                groups[sig] = g
+        viols += pviols
+        hs["calls"] += phs.get("calls", 0)
+        hs["panics"] += phs.get("panics", 0)
+        for k, v in phs.get("ops", {}).items():
+            hs["ops"][k] = hs["ops"].get(k, 0) + v
+        qn = [n["id"] for n in pnodes[1:] if n.get("quiet")]
+        ln = [n["id"] for n in pnodes[1:] if n["call"]["op"] == "closed" and n.get("who") == "c"]
+        lv = [n["id"] for n in pnodes if not n["kids"] and n["id"] != 0]
+        quiet_n += len(qn); lossy_n += len(ln); leaves_n += len(lv); trie_n += len(pnodes)
+        if len(samples) < 3 and ln:
+            nid = ln[len(ln) // 2]
+            samples.append([dict(who=x.get("who"), **d) for x, d in zip(vlib.path_to(pnodes, nid)[1:][:18], endpoint.brief_path(pnodes, nid, 18))])
+
+    def replay_of(ex):
+        return make_replay_fn(part_nodes[ex[0]])(ex[1])
+    code, nv, nk = vlib.verdict(PROP, groups, replay_of)
     # per-endpoint clauses of other properties observed on the pair runs are reported, not part of this verdict
     other = sorted({c for _, cl in viols for c in cl if not c.startswith(PROP)})
     if other:
         print("NOTE clauses of other properties false on pair runs (judged by their own checks): %s" % other)
 
-    quiet_nodes = [n["id"] for n in nodes[1:] if n.get("quiet")]
-    lossy = [n["id"] for n in nodes[1:] if n["call"]["op"] == "closed" and n.get("who") == "c"]
-    leaves = [n["id"] for n in nodes if not n["kids"] and n["id"] != 0]
-    samples = []
-    for nid in (quiet_nodes[:1] + lossy[len(lossy) // 2:len(lossy) // 2 + 1] + leaves[-1:]):
-        samples.append([dict(who=x.get("who"), **d) for x, d in zip(vlib.path_to(nodes, nid)[1:][:18], endpoint.brief_path(nodes, nid, 18))])
     vlib.write_evidence(PROP, tier, "model_checking", {
-        "states": states, "transitions": transitions, "traces_validated_against_impl": len(leaves), "samples": samples,
-        "exhaustive": False, "evaluations": hs.get("calls", 0), "distinct_nontrivial": len(quiet_nodes) + len(lossy),
+        "states": states, "transitions": transitions, "traces_validated_against_impl": leaves_n, "samples": samples,
+        "exhaustive": False, "evaluations": hs.get("calls", 0), "distinct_nontrivial": quiet_n + lossy_n,
         "rule": ("TLC explores the pair slices %s of MC_Pair.tla exhaustively (<= MaxOps application operations, <= MaxLoss transport losses, all "
                  "interleavings of deliveries, duties and losses); each explored transition is replayed on two real objects exchanging real bytes "
                  "(at most %d per run, sampled by seed) plus %s seeded random workloads. distinct_nontrivial = trie nodes that are quiescent points "
-                 "(where the delivery / release / vacancy clauses are evaluated) or transport losses." % (names, limit, args[args.index('--drive-pair') + 1])),
-        "slices": per_slice, "trie_nodes": len(nodes), "real_calls": hs.get("calls", 0), "harness_ops": hs.get("ops", {}),
-        "quiescent_points": len(quiet_nodes), "transport_losses": len(lossy), "library_panics_observed": hs.get("panics", 0),
+                 "(where the delivery / release / vacancy clauses are evaluated) or transport losses." % (names, limit, drive_n)),
+        "slices": per_slice, "trie_nodes": trie_n, "real_calls": hs.get("calls", 0), "harness_ops": hs.get("ops", {}),
+        "quiescent_points": quiet_n, "transport_losses": lossy_n, "library_panics_observed": hs.get("panics", 0),
         "violating_nodes": len([1 for _, cl in viols if any(c.startswith(PROP) for c in cl)]), "known_finding_signatures": nk,
         "checker_cmd": "tlc MC_Pair (%s); conn-harness --pair-edges ... --drive-pair; tlc Trace_Pair" % ",".join(names),
         "repo_head": vlib.repo_head(),
